@@ -20,7 +20,7 @@ META = {
         "Not decided: 'every view after every history' beyond these exception classes; that foreign traffic never alters tracked state."
     ),
 }
-META["explanation"] += ' C13.R2 also excludes AssertionError from asserts on payload-derived data and IndexError from constant indexes into sequences of unproven length. C13.R4 also: the array-fragment merge requires source and code equality and a time window as conjuncts.'
+META["explanation"] += " C13.R5: payload shapes agree between the handlers that park a message and the views that read it back (list-iterated payloads are stored under a list test; constant keys read by views are produced on every return path of their producers)." + ' C13.R2 also excludes AssertionError from asserts on payload-derived data and IndexError from constant indexes into sequences of unproven length. C13.R4 also: the array-fragment merge requires source and code equality and a time window as conjuncts.'
 
 VIEW_NAMES = ("schema", "params", "status", "traits", "known_list", "_schema_min", "faultlog", "latest_event", "latest_fault", "active_faults")
 
@@ -83,6 +83,123 @@ def check(ctx: Ctx) -> list[RuleResult]:
         o, c, path = det[k]
         r2.fail(k, o.where(), f"{short_cls(c)} can leave a public view: {o.kind} {o.detail} in {o.func.short}", [f"views: {', '.join(sorted(set(ents))[:8])}{' ...' if len(set(ents)) > 8 else ''} ({len(set(ents))})", f"source: {norm(o.node)[:140]}", "call path: " + " > ".join(p.short for p in path)])
     out.append(r2)
+
+    # ---- R5 ---------------------------------------------------------------------------
+    # Shape agreement between the handlers that park a message and the views that read it back (TypeError/KeyError are not in the
+    # exception model above, so these two shapes get their own structural rule):
+    #  (a) a view that iterates `self.<A>.payload` as a list of dicts requires every store `self.<A> = msg` to sit under a list
+    #      test of msg.payload (parsers return a list only for arrays, C05.R3) - else the view indexes strings;
+    #  (b) a view that subscripts `<Message>.payload["k"]` with a constant key requires "k" to be present in every dict its
+    #      producers return (a parser/helper that returns k on one path and a dict without it on another makes the read raise).
+    r5 = RuleResult("R5", "payload shapes agree between handlers and views", "list-iterated payloads are stored under a list test; constant keys read by views are produced on every return path", min_instances=1)
+    ent_props = [f for f in repo.funcs.values() if f.module.name.startswith("ramses_rf.") and f.is_property and f.cls is not None and f.parent is None]
+    # (a)
+    iterated: dict[str, tuple] = {}
+    for f in ent_props:
+        for n in own_nodes(f.node):
+            its = []
+            if isinstance(n, (ast.ListComp, ast.SetComp, ast.DictComp, ast.GeneratorExp)):
+                its = [(g.iter, g.target, n) for g in n.generators]
+            elif isinstance(n, ast.For):
+                its = [(n.iter, n.target, n)]
+            for it, tgt, scope in its:
+                if isinstance(it, ast.Attribute) and it.attr == "payload" and isinstance(it.value, ast.Attribute) and isinstance(it.value.value, ast.Name) and it.value.value.id == "self" and isinstance(tgt, ast.Name):
+                    # the element is used as a mapping: c["k"] / c.items()
+                    if any((isinstance(x, ast.Subscript) and isinstance(x.value, ast.Name) and x.value.id == tgt.id) or (isinstance(x, ast.Attribute) and isinstance(x.value, ast.Name) and x.value.id == tgt.id and x.attr in ("items", "get", "keys")) for x in ast.walk(scope)):
+                        iterated.setdefault(it.value.attr, (f, it))
+    for attr, (vf, it) in sorted(iterated.items()):
+        stores = []
+        for g in repo.funcs.values():
+            if g.cls is None or vf.cls is None or not (g.cls in vf.cls.mro or vf.cls in g.cls.mro):
+                continue
+            for n in own_nodes(g.node):
+                if isinstance(n, ast.Assign) and any(isinstance(t, ast.Attribute) and t.attr == attr and isinstance(t.value, ast.Name) and t.value.id == "self" for t in n.targets) and isinstance(n.value, ast.Name) and n.value.id == "msg":
+                    stores.append((g, n))
+        for g, n in stores:
+            r5.instances += 1
+            r5.nontrivial += 1
+            guarded = False
+            p2 = getattr(n, "parent", None)
+            child = n
+            while p2 is not None and not isinstance(p2, (ast.FunctionDef, ast.AsyncFunctionDef)):
+                if isinstance(p2, ast.If) and child in p2.body:
+                    for atom, holds in _implied_true(p2.test):
+                        if holds and ((isinstance(atom, ast.Call) and norm(atom.func) == "isinstance" and len(atom.args) == 2 and norm(atom.args[0]) == "msg.payload" and "list" in norm(atom.args[1])) or norm(atom) == "msg._has_array"):
+                            guarded = True
+                child, p2 = p2, getattr(p2, "parent", None)
+            if guarded:
+                r5.ok({"attribute": attr, "store": f"{g.short}: {norm(n)}", "under": "a list test of msg.payload", "iterated_by": vf.short})
+            else:
+                r5.fail(f"{g.short}:self.{attr}:stored-without-list-test", g.loc(n), f"{g.short} parks any message in self.{attr}, but {vf.short} iterates self.{attr}.payload as a list of dicts: a single-element (dict) payload of the same code makes the view raise TypeError")
+    # (b)
+    producers: dict[str, list[tuple]] = {}
+
+    def ret_keys(g, v: ast.expr, depth: int = 0) -> "set[str] | None":
+        """Keys certainly present in a returned dict expression (None = unknown)."""
+        if isinstance(v, ast.Dict):
+            ks: set[str] = set()
+            for k, x in zip(v.keys, v.values):
+                if k is None:
+                    sub = ret_keys(g, x, depth + 1)
+                    if sub is None:
+                        return None
+                    ks |= sub
+                    continue
+                try:
+                    kv = ctx.consts.eval_in(g, k)
+                except Exception:
+                    return None
+                if not isinstance(kv, str):
+                    return None
+                ks.add(kv)
+            return ks
+        if isinstance(v, ast.Call) and depth < 2:
+            site = ctx.cg.site_of.get(id(v))
+            if site is not None and len(site.callees) == 1 and not site.external:
+                c = site.callees[0]
+                rs = [r for r in own_nodes(c.node) if isinstance(r, ast.Return) and r.value is not None]
+                sets = [ret_keys(c, r.value, depth + 1) for r in rs]
+                if rs and all(x is not None for x in sets):
+                    # parameterised key names (f"{key}_fault") fold to unknown -> None above; else the intersection
+                    out = set(sets[0])  # type: ignore[arg-type]
+                    for x in sets[1:]:
+                        out &= x  # type: ignore[arg-type]
+                    return out
+            return None
+        return None
+
+    for g in repo.funcs.values():
+        if g.module.name not in ("ramses_tx.parsers", "ramses_tx.helpers", "ramses_tx.opentherm"):
+            continue
+        rs = [r for r in own_nodes(g.node) if isinstance(r, ast.Return) and r.value is not None]
+        sets = [(r, ret_keys(g, r.value)) for r in rs]
+        known = [(r, k) for r, k in sets if k is not None]
+        allk = set().union(*[k for _r, k in known]) if known else set()
+        for k in allk:
+            lacking = [r for r, ks in known if k not in ks]
+            # a return whose dict is not understood *but is a call of a fault/alternative helper* is a definite alternative shape
+            alt = [r for r, ks in sets if ks is None and isinstance(r.value, ast.Call) and "fault" in norm(r.value.func)]
+            if lacking or alt:
+                producers.setdefault(k, []).append((g, (lacking or alt)[0]))
+    for f in sorted(ent_props, key=lambda x: x.qualname):
+        for n in own_nodes(f.node):
+            if isinstance(n, ast.Subscript) and isinstance(n.ctx, ast.Load) and isinstance(n.value, ast.Attribute) and n.value.attr == "payload":
+                try:
+                    k = ctx.consts.eval_in(f, n.slice)
+                except Exception:
+                    continue
+                if not isinstance(k, str):
+                    continue
+                r5.instances += 1
+                r5.nontrivial += 1
+                if k in producers:
+                    g, r = producers[k][0]
+                    r5.fail(f"{f.qualname}:payload[{k}]:conditional-key", f.loc(n), f"{f.short} reads `{norm(n)[:50]}`, but {g.short} does not put '{k}' in every dict it returns (e.g. `{norm(r)[:60]}`): the view raises KeyError for such a message")
+                else:
+                    r5.ok({"view": f.short, "key": k, "produced_on_every_return_path": True})
+    if r5.instances < 1:
+        raise AnalysisError("C13.R5: no handler/view shape instance found")
+    out.append(r5)
 
     # ---- R3 ---------------------------------------------------------------------------
     r3 = RuleResult("R3", "fault-log view coherence", "FaultLog._map/_log have one writer; a timestamp installed into _map is already in _log", min_instances=3)
